@@ -67,7 +67,12 @@ PPrimary(toks, i) ==
 IsNumTok(toks, i) == i <= Len(toks) /\ toks[i].k = "num"
 Trunc(m) == m[1] \div m[2]
 Whole(m) == m[1] % m[2] = 0
-DateLike(toks) ==
+\* a `+` sign directly in front of an operand belongs to the literal for the date reader too: 1 / 7 / +12 and 10 / +10 / 12
+\* read as dates; the chain is looked for with these signs taken out
+IsPlusPrefix(toks, i) == IsOp(toks, i, {"+"}) /\ (i = 1 \/ toks[i - 1].k \in {"op", "lp"}) /\ IsNumTok(toks, i + 1)
+RECURSIVE StripPlus(_, _)
+StripPlus(toks, i) == IF i > Len(toks) THEN <<>> ELSE IF IsPlusPrefix(toks, i) THEN StripPlus(toks, i + 1) ELSE <<toks[i]>> \o StripPlus(toks, i + 1)
+DateLike0(toks) ==
   \E i \in 1..(Len(toks) - 4) :
      /\ IsNumTok(toks, i) /\ IsNumTok(toks, i + 2) /\ IsNumTok(toks, i + 4)
      /\ IsOp(toks, i + 1, {"/"}) /\ IsOp(toks, i + 3, {"/"})
@@ -75,6 +80,7 @@ DateLike(toks) ==
      /\ toks[i].sfx = "" /\ toks[i + 2].sfx = ""
      /\ Whole(toks[i].m) /\ Whole(toks[i + 2].m) /\ Whole(toks[i + 4].m)
      /\ Trunc(toks[i].m) \in 1..31 /\ Trunc(toks[i + 2].m) \in 1..12 /\ Trunc(toks[i + 4].m) >= 1
+DateLike(toks) == DateLike0(StripPlus(toks, 1))
 
 \* value of a whole line: ok = FALSE when the tokens are not a sentence of the grammar
 ArithLine(toks) ==
